@@ -543,8 +543,17 @@ func (conv *converter) convertRuleExpr(call *ast.CallExpr) {
 
 	rule := ir.Rule{Line: conv.fset.Position(origCall.Pos()).Line}
 
+	// The chain is recognized by the method names alone, so a user type with methods
+	// named like the DSL's can get here with any number of arguments.
+	arg0 := func(method string, args *[]ast.Expr) ast.Expr {
+		if len(*args) == 0 {
+			panic(conv.errorf(origCall, "%s() expects an argument", method))
+		}
+		return (*args)[0]
+	}
+
 	if atArgs != nil {
-		index, ok := (*atArgs)[0].(*ast.IndexExpr)
+		index, ok := arg0("At", atArgs).(*ast.IndexExpr)
 		if !ok {
 			panic(conv.errorf((*atArgs)[0], "expected %s[`varname`] expression", conv.group.MatcherName))
 		}
@@ -552,11 +561,11 @@ func (conv *converter) convertRuleExpr(call *ast.CallExpr) {
 	}
 
 	if whereArgs != nil {
-		rule.WhereExpr = conv.convertFilterExpr((*whereArgs)[0])
+		rule.WhereExpr = conv.convertFilterExpr(arg0("Where", whereArgs))
 	}
 
 	if suggestArgs != nil {
-		rule.SuggestTemplate = conv.parseStringArg((*suggestArgs)[0])
+		rule.SuggestTemplate = conv.parseStringArg(arg0("Suggest", suggestArgs))
 	}
 
 	if suggestArgs == nil && reportArgs == nil && doArgs == nil {
@@ -569,7 +578,7 @@ func (conv *converter) convertRuleExpr(call *ast.CallExpr) {
 		if matchCommentArgs != nil {
 			panic(conv.errorf(origCall, "can't use Do() with MatchComment() yet"))
 		}
-		funcName, ok := (*doArgs)[0].(*ast.Ident)
+		funcName, ok := arg0("Do", doArgs).(*ast.Ident)
 		if !ok {
 			panic(conv.errorf((*doArgs)[0], "only named function args are supported"))
 		}
@@ -578,7 +587,7 @@ func (conv *converter) convertRuleExpr(call *ast.CallExpr) {
 		if reportArgs == nil {
 			rule.ReportTemplate = "suggestion: " + rule.SuggestTemplate
 		} else {
-			rule.ReportTemplate = conv.parseStringArg((*reportArgs)[0])
+			rule.ReportTemplate = conv.parseStringArg(arg0("Report", reportArgs))
 		}
 	}
 
